@@ -29,6 +29,9 @@ structure Flags where
   foldPlainOnly : Bool := false
   /-- (#11) const_expr: an integer literal is passed with its annotated kind, not as `int` -/
   constExprConvert : Bool := false
+  /-- const_range: emptiness is decided by `max < min`; a size `max-min+1` that does not fit an `int` (it wraps
+      below 1) leaves the range to the run time instead of folding it to an empty constant -/
+  constRangeNoOverflow : Bool := false
   deriving Repr, DecidableEq, Inhabited
 
 /-- the code as it is now: every repair in place -/
